@@ -307,9 +307,9 @@ impl<'a> Parser<'a> {
             {
                 exprs.push(e)
             }
+            self.parsing_list = false;
             exprs
         };
-        self.parsing_list = false;
         Ok(ExpressionList { first, rest })
     }
 
